@@ -63,7 +63,7 @@ def main():
     plan = []
     for fam in fams:
         for impl in ('c', 'py'):
-            plan.append(dict(fam=fam, impl=impl, emb='ext' if len(plan) % 3 == 0 else 'mid', nkeys=3 if quick else 4,
+            plan.append(dict(fam=fam, impl=impl, emb='ext' if fam[0] == 'O' or len(plan) % 3 == 0 else 'mid', nkeys=3 if quick else 4,
                              seed=ck.seed * 100 + len(plan), maxpairs=(2500 if impl == 'c' else 900) if quick else 40000))
     run_setops(ck, plan, 'C10')
     ck.assumptions += ['operands hold keys of the family', 'first operand of difference and of the operators is a BTrees container']
